@@ -894,13 +894,23 @@ func ruleGR5() Rule {
 				rr.Unkp(c.P, "interp|ops", pos, err.Error())
 				return
 			}
+			// marker nonterminals (`land_lhs: land_expr LAND`, reduced early for the sake of
+			// its action) are written back into the productions that begin with them: the
+			// language is the same and the levels have their textbook shape
+			inl, _ := inlineMarkers(G)
+			var prods []*Production
+			for _, ip := range inl {
+				q := *ip.top
+				q.RHS = ip.rhs
+				prods = append(prods, &q)
+			}
 			byLHS := map[string][]*Production{}
-			for _, p := range G.Prods {
+			for _, p := range prods {
 				byLHS[p.LHS] = append(byLHS[p.LHS], p)
 			}
 			// walk down the unit-production chain from cond_expr's first operand
 			findBinary := func(op string) (lhs string, p *Production) {
-				for _, pr := range G.Prods {
+				for _, pr := range prods {
 					if len(pr.RHS) == 3 && spell[pr.RHS[1]] == op && G.IsTerminal(pr.RHS[1]) && !G.IsTerminal(pr.RHS[0]) && !G.IsTerminal(pr.RHS[2]) {
 						return pr.LHS, pr
 					}
@@ -968,7 +978,7 @@ func ruleGR5() Rule {
 			// conditional and assignment
 			top := levelNT[0]
 			var condNT string
-			for _, pr := range G.Prods {
+			for _, pr := range prods {
 				if len(pr.RHS) == 5 && spell[pr.RHS[1]] == "?" && spell[pr.RHS[3]] == ":" {
 					condNT = pr.LHS
 					key := "interp|conditional"
@@ -983,7 +993,7 @@ func ruleGR5() Rule {
 				rr.Badp(c.P, "interp|conditional", pos, "no ?: production")
 			}
 			assignOK := false
-			for _, pr := range G.Prods {
+			for _, pr := range prods {
 				if len(pr.RHS) == 3 && pr.RHS[1] == "assign_op" {
 					key := "interp|assignment"
 					if pr.RHS[2] == pr.LHS && unit(pr.LHS) == condNT {
